@@ -151,6 +151,61 @@ if not re.search(r'"possible_bit_flips": self\.exception_info\.as_ref\(\)\.and_t
     die("print_json no longer hands `&info.possible_bit_flips` (non-empty) to json! as it is")
 
 
+# ---------------------------------------------------------------- MinidumpModule::version (minidump/src/minidump.rs), printed as modules[].version
+mdsrc = re.sub(r"//[^\n]*", "", open(os.path.join(repo, "minidump/src/minidump.rs")).read())
+fmtsrc = re.sub(r"//[^\n]*", "", open(os.path.join(repo, "minidump-common/src/format.rs")).read())
+impl_at = mdsrc.find("impl Module for MinidumpModule {")
+if impl_at < 0:
+    die("impl Module for MinidumpModule not found")
+vstart = mdsrc.find("fn version(&self)", impl_at)
+vend = mdsrc.find("impl MinidumpUnloadedModule {", vstart)
+if vstart < 0 or vend < 0:
+    die("MinidumpModule::version not found")
+vbody = squash(mdsrc[vstart:vend])
+ARG = r"self\.raw\.version_info\.(\w+)(?: (>>|&) (0x[0-9a-fA-F]+|\d+))?"
+FMT = r'let ver = format!\( "\{\}\.\{\}\.\{\}\.\{\}", ' + ", ".join([ARG] * 4) + r",? \); Some\(Cow::Owned\(ver\)\)"
+vm = re.match(r"^fn version\(&self\) -> Option<Cow<'_, str>> \{ if self\.raw\.version_info\.signature == md::(\w+) && self\.raw\.version_info\.struct_version == md::(\w+) "
+              r"\{ if matches!\(self\.os, ([^)]*)\) \{ " + FMT + r" \} else \{ " + FMT + r" \} \} else \{ None \} \} \}$", vbody)
+if not vm:
+    die("MinidumpModule::version no longer has the shape `if signature == .. && struct_version == .. { if matches!(self.os, ..) { format!(\"{}.{}.{}.{}\", ..) } else { format!(..) } } else { None }`: %r" % vbody[:300])
+g = vm.groups()
+
+
+def md_const(name):
+    m_ = re.search(r"pub const %s: u32 = (0x[0-9a-fA-F_]+|\d+);" % re.escape(name), fmtsrc)
+    if not m_:
+        die("minidump_common::format::%s (u32 constant) not found" % name)
+    return int(m_.group(1).replace("_", ""), 0)
+
+
+ver_sig, ver_struct = md_const(g[0]), md_const(g[1])
+osm = re.search(r"pub enum Os \{(.*?)\}", re.sub(r"//[^\n]*", "", open(os.path.join(repo, "minidump/src/system_info.rs")).read()), re.S)
+if not osm:
+    die("enum Os not found")
+os_variants = [re.sub(r"\(.*", "", v.strip()) for v in osm.group(1).split(",") if v.strip()]
+split_os = []
+for tok in [t.strip() for t in g[2].split("|")]:
+    if not tok.startswith("Os::") or tok[4:] not in os_variants:
+        die("MinidumpModule::version: pattern %r is not a variant of Os" % tok)
+    split_os.append(os_variants.index(tok[4:]))
+VFIELDS = {"file_version_hi": 0, "file_version_lo": 1, "product_version_hi": 2, "product_version_lo": 3}
+
+
+def ver_arm(gs):
+    arm = []
+    for i in range(4):
+        fld, op, num = gs[3 * i:3 * i + 3]
+        if fld not in VFIELDS:
+            die("MinidumpModule::version: field %r not recognised" % fld)
+        arm.append((VFIELDS[fld], {None: 0, ">>": 1, "&": 2}[op], int(num, 0) if num else 0))
+    return arm
+
+
+ver_split, ver_else = ver_arm(g[3:15]), ver_arm(g[15:27])
+if '"version": module.version(),' not in nocomment:
+    die("print_json no longer prints `\"version\": module.version()`")
+
+
 def coqstr(s):
     return "[" + ";".join(str(ord(c)) for c in s) + "]"
 
@@ -168,7 +223,15 @@ out = ("(* GENERATED by translate/c15_fmt.py from minidump-processor/src/process
        "(* minidump_common::utils::basename: the characters f.rfind([...]) looks for; the result is the text after the last of them *)\n"
        "Definition BASENAME_SEPARATORS : list Z := [" + "; ".join(str(c) for c in seps) + "].\n\n"
        "(* PossibleBitFlip.confidence is an Option<fN> serialised by the derived Serialize (no attribute), handed to json! as it is: N *)\n"
-       "Definition CONFIDENCE_FLOAT_BITS : Z := %d.\n" % confidence_bits)
+       "Definition CONFIDENCE_FLOAT_BITS : Z := %d.\n\n" % confidence_bits +
+       "(* MinidumpModule::version (minidump/src/minidump.rs): Some only when version_info.signature / struct_version equal these constants of\n"
+       "   minidump-common/src/format.rs; for the Os variants (indices in declaration order) of the matches! the first arm, else the second;\n"
+       "   an arm = the four arguments of format!(\"{}.{}.{}.{}\"): (field: 0 file_version_hi 1 file_version_lo 2 product_version_hi 3 product_version_lo,\n"
+       "   operator: 0 none 1 `>>` 2 `&`, operand) *)\n"
+       "Definition VERSION_SIGNATURE : Z := %d.\nDefinition VERSION_STRUCVERSION : Z := %d.\n" % (ver_sig, ver_struct) +
+       "Definition VERSION_SPLIT_OS : list Z := [%s].\n" % "; ".join(map(str, split_os)) +
+       "Definition VERSION_ARM_SPLIT : list (Z * Z * Z) := [%s].\n" % "; ".join("(%d, %d, %d)" % a for a in ver_split) +
+       "Definition VERSION_ARM_ELSE : list (Z * Z * Z) := [%s].\n" % "; ".join("(%d, %d, %d)" % a for a in ver_else))
 path = os.path.join(outdir, "C15Fmt.v")
 os.makedirs(outdir, exist_ok=True)
 try:
